@@ -2,7 +2,9 @@ package zsim
 
 import (
 	"bytes"
+	"context"
 	"fmt"
+	"github.com/getlantern/zenodb/core"
 	"math"
 	"net/http"
 	"net/http/httptest"
@@ -37,6 +39,7 @@ var c16Statements = []string{
 	"SELECT * FROM t0 WHERE da LIKE", "SELECT * FROM t0 WHERE da IS", "SELECT * FROM t0 WHERE NOT", "SELECT * FROM t0 WHERE da = (SELECT 1)", "SELECT * FROM t0 WHERE 1", "SELECT * FROM t0 WHERE da", "SELECT * FROM t0 HAVING", "SELECT * FROM t0 HAVING da",
 	"SELECT * FROM t0 ORDER BY", "SELECT * FROM t0 ORDER BY 1", "SELECT * FROM t0 GROUP BY da AS", "SELECT f0 AS FROM t0", "SELECT f0 f1 f2 FROM t0", "SELECT * FROM t0 WHERE da = 'a' AND", "SELECT \x00 FROM t0", "SELECT * FROM t0 /* force_fresh",
 	"SELECT `a\\` FROM t0 GROUP BY `b", "SELECT `a\\` FROM t0", "SELECT * FROM t0 WHERE da = 'x\\' AND `b", "SELECT /* ' */ `a FROM t0", "SELECT /* ` */ f0 FROM t0", "SELECT -- ' \n `a FROM t0", "SELECT \"a\\\" FROM t0 GROUP BY `b", "SELECT 'a''b' AS x, `c FROM t0", "SELECT `a``b FROM t0", "SELECT * FROM t0 WHERE da = '\\'' AND `b",
+	"SELECT * FROM t0 ASOF '-2s' UNTIL '-5s'", "SELECT f0 FROM t0 ASOF '-1s' UNTIL '-1s' GROUP BY da", "SELECT * FROM t0 ASOF '2000-01-01T00:00:30Z' UNTIL '2000-01-01T00:00:10Z'", "SELECT _points FROM t0 ASOF '-10s' UNTIL '-50s' GROUP BY _, period(5s)", "SELECT * FROM t0 ASOF '5s' UNTIL '-5s'", "SELECT * FROM t0 UNTIL '-100000h'", "SELECT * FROM t0 ASOF '100000h'",
 	"SELECT AVG(SUM(x)) AS s FROM t0", "SELECT WAVG(x) AS s FROM t0", "SELECT WAVG(x, SUM(y)) AS s FROM t0", "SELECT LN() AS s FROM t0", "SELECT x + AS s FROM t0", "SELECT (x AS s FROM t0", "SELECT x) AS s FROM t0",
 }
 
@@ -340,6 +343,9 @@ func execC16(e *Env, p *Plan) error {
 			for _, t := range []target{
 				{"sql.Parse", func() { zsql.Parse(sqlString) }},
 				{"sql.TableFor", func() { zsql.TableFor(sqlString) }},
+				// (planning only: the property says "return an error or a plan".
+				// Running the plans of mutated statements was tried - see
+				// runPlanBounded and DESIGN 9.8, S16c - and is left out.)
 				{"DB.Query (standalone)", func() { s.DB.Query(sqlString, false, nil, true) }},
 				{"DB.Query (cluster leader)", func() { leader.DB.Query(sqlString, false, nil, true) }},
 				{"DB.Query as subquery", func() { s.DB.Query(sqlString, true, nil, false) }},
@@ -466,3 +472,21 @@ func checkRoutingSuperset(e *Env, c *Cluster, d *Node, p *Plan) *Violation {
 }
 
 var _ = zenodb.DefaultMaxFollowQueue
+
+// runPlanBounded (not used by the registered check) plans the statement and, if that yields a plan, runs it under
+// a deadline of five simulated seconds: a plan must be runnable (rows or an
+// error), a run that spins is caught by the watchdog.
+func runPlanBounded(e *Env, db *zenodb.DB, sqlString string) {
+	src, err := db.Query(sqlString, false, nil, true)
+	if err != nil || src == nil {
+		return
+	}
+	ctx, cancel := context.WithTimeout(context.Background(), 5*time.Second)
+	defer cancel()
+	n := 0
+	src.Iterate(ctx, func(fields core.Fields) error { return nil }, func(row *core.FlatRow) (bool, error) {
+		n++
+		return n < 5000, nil
+	})
+	e.Count("probe.plan-executed")
+}
